@@ -42,3 +42,23 @@ Lemma xform_icc_old_rules_refuted :
   (valid_setup setup_ii /\ size_term_with gen_size_term true setup_ii = 0 /\ icc_written setup_ii = 3000 /\
    size_term setup_ii = 3000).
 Proof. unfold valid_setup. vm_compute. repeat split; intros; discriminate. Qed.
+
+(* ---- with the marker overhead *)
+Theorem xform_icc_bytes_bound : forall x k, valid_setup x -> 0 <= k ->
+  icc_bytes_written x k <= size_term x + icc_chunk_overhead * chunks_written x k.
+Proof.
+  intros x k V Hk. unfold icc_bytes_written. pose proof (xform_icc_sufficient_all x V). lia.
+Qed.
+
+(* sufficient when the chunk overhead fits in what the caller leaves of the 2048-byte slack *)
+Theorem xform_icc_bytes_sufficient_when : forall x k room, valid_setup x -> 0 <= k ->
+  icc_chunk_overhead * chunks_written x k <= room -> icc_bytes_written x k <= size_term x + room.
+Proof. intros x k room V Hk H. pose proof (xform_icc_bytes_bound x k V Hk). lia. Qed.
+
+(* refuted in general: a 2550-byte source profile stored as 255 chunks needs 4590 bytes more than the payload,
+   more than the whole slack (replayed on the library: `xmk 0 255 2550 2 0 8 1`) *)
+Definition setup_chunks : xsetup := mkX 2 false 2550 0 false.
+Theorem xform_icc_chunk_overhead_refuted :
+  valid_setup setup_chunks /\ icc_bytes_written setup_chunks 255 = 7140 /\ marker_budget setup_chunks = 4598 /\
+  marker_budget setup_chunks < icc_bytes_written setup_chunks 255.
+Proof. unfold valid_setup. vm_compute. repeat split; intros; discriminate. Qed.
